@@ -9,8 +9,7 @@ from .common import Outcome, write_evidence, log
 
 PROP = 'C03'
 QUOTAS = {
-    'quick': {'cheap': 4, 'medium': 4, 'heavy': 1, 'F1:cheap': 22, 'F2:medium': 12, 'F6:cheap': 4, 'R:cheap': 6,
-              'R:medium': 8, 'R:heavy': 1},
+    'quick': {'cheap': 2, 'medium': 3, 'heavy': 1, 'F1:cheap': 14, 'F2:medium': 10, 'F6:cheap': 2, 'R:cheap': 5, 'R:medium': 6, 'R:heavy': 1},
     'thorough': {'cheap': 150, 'medium': 90, 'heavy': 16, 'F1:cheap': 500, 'F2:medium': 140, 'R:cheap': 60,
                  'R:medium': 70, 'R:heavy': 16},
 }
